@@ -150,7 +150,7 @@ fn run_word(base: &[u8], idx: u64, word: &[char], rep: &mut Report) {
 fn hist_cfg(n_ops: usize) -> HistCfg {
     HistCfg {
         n_ops,
-        gen: GenCfg { max_tables: 4, invalid_pct: 6, ..Default::default() },
+        gen: GenCfg { max_tables: 4, invalid_pct: 6, big_batch_one_in: 150, ..Default::default() },
         mon: monitors(),
         close_pass: None,
         random_close_pct: 8,
